@@ -55,8 +55,8 @@ def boundary_report(ctx, binary, anchors, okset):
     bs = json.load(open(bp))
     stat = {}
     for a in anchors:
-        if a["id"] not in okset:
-            continue
+        if a["id"] not in okset and not ((a.get("skip") or "").startswith("exact") and not a.get("nonfinite")):
+            continue     # certified by Coq-Interval, or an exact outcome anchor that was observed as specified
         for p in a.get("preds") or []:
             st = stat.setdefault(p["k"], {"adj_t": 0, "adj_f": 0, "t": 0, "f": 0})
             st["t" if p["t"] else "f"] += 1
